@@ -427,9 +427,26 @@ def generic(prog, rep, fam):
     b = fam.b(fn, inline=False)
     cfg = cfg_of(fn)
     site = fn.where()
-    ret = fam.return_stmt(fn)
+    rets_all = [s_ for s_ in cfg.all_stmts() if isinstance(s_, ast.Return) and s_.value is not None]
+    if not rets_all:
+        raise AnalysisError(f"{fn.qualname}: no return with a value")
+    ret = rets_all[-1]
     base = b.term(ret.value, ret)
     want_base = ("call", G("list"), (("call", ("attr", ("attr", SELF, "parameters"), "values"), (), ()),), ())
+    # an early exit for "nothing to override" may hand back the stored values - but only where really NO override was passed:
+    # no positional argument at all and no keyword at all (a test of truthiness - any(args) - is False for an override equal to 0)
+    pcs_e = path_conditions(prog, fn, b)
+    nothing = {("not", P("*args")), ("not", P("**kwargs")), ("not", P("args")), ("not", P("kwargs")),
+               ("cmp", "==", ("call", G("len"), (P("args"),), ()), ("const", 0)), ("cmp", "==", ("call", G("len"), (P("kwargs"),), ()), ("const", 0))}
+    for r_ in rets_all[:-1]:
+        lits = list(pcs_e.of(r_))
+        flat = [x_ for l_ in lits for x_ in (l_[1][1] if l_[0] == "not" and l_[1][0] == "or" else ())]   # not (a or b) = not a, not b
+        lits2 = set(lits) | {("not", x_) for x_ in flat}
+        okr = b.term(r_.value, r_) == want_base and any(l_ in lits2 for l_ in list(nothing)[0::2] + [("not", P("args"))]) and \
+            {l_ for l_ in lits2 if not (l_[0] == "not" and l_[1][0] == "or")} <= nothing and len({l_ for l_ in lits2 if l_ in nothing}) >= 2
+        rep.check(okr, "C05.generic", f"{ci.qualname}._get_scipy_parameters:early-exit", fn.where(r_), "the stored values are returned early only when no override was passed at all",
+                  f"an early return of the stored parameter values under {[show(l_)[:60] for l_ in lits]}: an override that is falsy (a positional 0 for loc: d.cdf(x, None, 0)) "
+                  "is skipped and the stored value used - the early exit must test for the absence of arguments (not args and not kwargs), not for their truth")
     rep.check(base == want_base, "C05.generic", f"{ci.qualname}._get_scipy_parameters:defaults", site,
               "defaults are list(self.parameters.values())", f"returned list must start from list(self.parameters.values()), found {show(base)[:120]}")
     pos_ok = kw_ok = kw_none_ok = False
